@@ -220,18 +220,34 @@ def parse_ann_spec(s: str):
     return class_by_name(cls)(opt_shape(shape), optional=(opt == "1"))
 
 
+def _msg_ok(e, *needles) -> str:
+    """the MESSAGE of the error (what a user reads) must carry the same facts as the attributes the report is built from"""
+    try:
+        m = str(e)
+    except Exception as x:  # noqa: BLE001
+        return f" msg-mismatch(str() raises {type(x).__name__})"
+    import re
+
+    for n in needles:
+        if not re.search(r"(?<![A-Za-z0-9_\[\]])" + re.escape(n) + r"(?![A-Za-z0-9_\[])", m):
+            return f" msg-mismatch({n!r} not in {m[:120]!r})"
+    return ""
+
+
 def show_report(e) -> str:
     E = dltype
     if isinstance(e, E.DLTypeNDimsError):
-        return f"reject ndims tensor={e._tensor_name} expected={e._expected} actual={e._actual}"
+        return f"reject ndims tensor={e._tensor_name} expected={e._expected} actual={e._actual}" + _msg_ok(e, f"tensor={e._tensor_name}", f"ndims={e._expected}", f"actual={e._actual}")
     if isinstance(e, E.DLTypeDtypeError):
-        return f"reject dtype tensor={e._tensor_name}"
+        return f"reject dtype tensor={e._tensor_name}" + _msg_ok(e, f"tensor={e._tensor_name}")
     if isinstance(e, E.DLTypeShapeError):
-        return f"reject shape tensor={e._tensor_name} dim={e._index} expected={e._expected} actual={e._actual}"
+        return f"reject shape tensor={e._tensor_name} dim={e._index} expected={e._expected} actual={e._actual}" + _msg_ok(
+            e, f"tensor={e._tensor_name}", f"dim={e._index}", f"expected={e._expected}", f"actual={e._actual}")
     if isinstance(e, E.DLTypeInvalidReferenceError):
-        return f"reject invalidref tensor={e._tensor_name} missing={e._missing_ref} valid={','.join(e._context.keys())}"
+        return f"reject invalidref tensor={e._tensor_name} missing={e._missing_ref} valid={','.join(e._context.keys())}" + _msg_ok(
+            e, f"tensor={e._tensor_name}", f"missing_ref={e._missing_ref}")
     if isinstance(e, E.DLTypeDuplicateError):
-        return f"reject duplicate tensor={e._tensor_name}"
+        return f"reject duplicate tensor={e._tensor_name}" + _msg_ok(e, f"tensor={e._tensor_name}")
     if isinstance(e, E.DLTypeUnsupportedTensorTypeError):
         return "reject unsupported"
     if isinstance(e, E.DLTypeScopeProviderError):
